@@ -41,6 +41,7 @@ D = {
     '[wl_surface, wl_seat].[commit, capabilities]': ms.pattern(
         C0, _obj('', lambda o: o[0] in ('wl_surface', 'wl_seat')), _name('', lambda n: n in ('commit', 'capabilities')), A0),
     '*': lambda m: True,
+    'wl_surface.destroyed': ms.pattern(C0, _obj('wl_surface', ms.o_type('wl_surface')), ('destroyed', lambda n: n == 'destroyed', True), A0),
     '(wl_seat)': ms.pattern(C0, O0, N0, ('(wl_seat)', ms.argl([ms.a_word('wl_seat')]))),
     '("wl_seat")': ms.pattern(C0, O0, N0, ('("wl_seat")', ms.argl([ms.a_str('wl_seat')]))),
 }
